@@ -31,12 +31,73 @@ class Prov:
         self.lex = []        # (call node, tags)
         self.in_loop = False
 
-    def mentions(self, e, name):
-        return any(isinstance(x, ast.Name) and x.id == name for x in ast.walk(e))
+    aliases = {}      # local name -> the (tuple) expression it is bound to once; used to see through `coords = (line_id, col + 1)`
+    methods = {}      # sibling methods of the tokenizer class (helpers may compute positions)
+
+    def mentions(self, e, name, depth=0):
+        for x in ast.walk(e):
+            if isinstance(x, ast.Name):
+                if x.id == name:
+                    return True
+                if depth < 3 and x.id in self.aliases and self.mentions(self.aliases[x.id], name, depth + 1):
+                    return True
+        return False
+
+    def helper_result(self, e, env):
+        """Provenance of `self.<helper>(args)`: the helper is interpreted with the tags of the arguments; a parameter that receives
+        the line counter plays the role of the line variable inside it."""
+        h = self.methods.get(e.func.attr)
+        if h is None or getattr(self, "_depth", 0) > 2:
+            return None
+        ps = [a.arg for a in h.args.args]
+        if ps and ps[0] in ("self", "cls"):
+            ps = ps[1:]
+        if len(ps) != len(e.args) or e.keywords:
+            return None
+        line_ps = [p_ for p_, a in zip(ps, e.args) if self.in_loop and self.mentions(a, self.line_var)]
+        sub = Prov(h, None, line_ps[0] if line_ps else "\0", None)
+        sub.methods = self.methods
+        sub._depth = getattr(self, "_depth", 0) + 1
+        sub.in_loop = bool(line_ps)
+        sub.aliases = {}
+        for st in ast.walk(h):
+            if isinstance(st, ast.Assign) and len(st.targets) == 1 and isinstance(st.targets[0], ast.Name) and isinstance(st.value, (ast.Tuple, ast.BinOp)):
+                if sum(1 for x in ast.walk(h) if isinstance(x, ast.Name) and x.id == st.targets[0].id and isinstance(x.ctx, ast.Store)) == 1:
+                    sub.aliases[st.targets[0].id] = st.value
+        env_h = {p_: self.ev(a, env) for p_, a in zip(ps, e.args)}
+        out = set()
+
+        def walk(stmts, env_):
+            for st in stmts:
+                if isinstance(st, ast.Return):
+                    out.update(sub.ev(st.value, env_) if st.value is not None else {NONE})
+                    return None
+                if isinstance(st, ast.Assign) and len(st.targets) == 1 and isinstance(st.targets[0], ast.Name):
+                    env_ = dict(env_)
+                    env_[st.targets[0].id] = sub.ev(st.value, env_)
+                elif isinstance(st, ast.If):
+                    r1 = walk(st.body, sub.refine(st.test, env_, True))
+                    r2 = walk(st.orelse, sub.refine(st.test, env_, False)) if st.orelse else sub.refine(st.test, env_, False)
+                    if r1 is None and r2 is None:
+                        return None
+                    env_ = sub.join(r1, r2) if r1 is not None and r2 is not None else (r1 if r1 is not None else r2)
+                elif isinstance(st, (ast.Expr, ast.Pass, ast.Assert)):
+                    continue
+                else:
+                    out.add(NOTPOS)
+                    return None
+            return env_
+        if walk(h.body, env_h) is not None:
+            out.add(NONE)
+        return frozenset(out)
 
     def ev(self, e, env):
         if isinstance(e, ast.Call) and call_name(e) == "SrcPos" and len(e.args) >= 2:
-            return frozenset({CUR}) if (self.in_loop and self.mentions(e.args[1], self.line_var)) else frozenset({INIT})
+            return frozenset({CUR}) if (self.in_loop and any(self.mentions(a.value if isinstance(a, ast.Starred) else a, self.line_var) for a in e.args[1:])) else frozenset({INIT})
+        if isinstance(e, ast.Call) and isinstance(e.func, ast.Attribute) and is_name(e.func.value, "self", "cls") and e.func.attr in self.methods:
+            r = self.helper_result(e, env)
+            if r is not None:
+                return r
         if isinstance(e, ast.Name):
             return env.get(e.id, frozenset({NOTPOS}))
         if isinstance(e, ast.Constant) and e.value is None:
@@ -50,7 +111,8 @@ class Prov:
             l, r = test.left, test.comparators[0]
             for a, b in ((l, r), (r, l)):
                 if isinstance(a, ast.Attribute) and a.attr in ("coords", "line") and isinstance(a.value, ast.Name):
-                    cur_line = self.mentions(b, self.line_var) and (a.attr == "line" or (isinstance(b, ast.Tuple) and b.elts and self.mentions(b.elts[0], self.line_var)))
+                    b_ = self.aliases.get(b.id, b) if isinstance(b, ast.Name) else b
+                    cur_line = self.mentions(b_, self.line_var) and (a.attr == "line" or (isinstance(b_, ast.Tuple) and b_.elts and self.mentions(b_.elts[0], self.line_var)))
                     if cur_line and pol == isinstance(test.ops[0], ast.Eq):
                         env = dict(env)
                         env[a.value.id] = frozenset({CUR})
@@ -74,17 +136,17 @@ class Prov:
                 self.lex.append((c, self.ev(c.args[0], env), self.in_loop))
 
     def is_opener_block(self, stmts):
-        return any(isinstance(s, ast.Assign) and is_name(s.targets[0], self.span_var) and not (isinstance(s.value, ast.Constant) and s.value.value is None) for s in stmts)
+        return any(isinstance(s, ast.Assign) and any(is_name(t, self.span_var) for t in s.targets) and not (isinstance(s.value, ast.Constant) and s.value.value is None) for s in stmts)
 
     def capture_vars(self):
         """Names whose bindings inside the line loop are all directly in opener blocks, or `= None`."""
         ok = {}
         for st in ast.walk(self.line_loop):
-            if isinstance(st, ast.Assign) and len(st.targets) == 1 and isinstance(st.targets[0], ast.Name):
-                nm = st.targets[0].id
+            if isinstance(st, ast.Assign) and all(isinstance(t, ast.Name) for t in st.targets):
                 is_none = isinstance(st.value, ast.Constant) and st.value.value is None
                 blk = _block_stmts(st)
-                ok[nm] = ok.get(nm, True) and (is_none or self.is_opener_block(blk))
+                for t in st.targets:
+                    ok[t.id] = ok.get(t.id, True) and (is_none or self.is_opener_block(blk))
         return {n for n, v in ok.items() if v and n != self.span_var}
 
     # states: dict  mode -> env   (mode 'N': span variable is None, 'S': a span is open)
@@ -103,19 +165,21 @@ class Prov:
         for st in stmts:
             if states is None or not states:
                 return states
-            if isinstance(st, ast.Assign) and len(st.targets) == 1 and isinstance(st.targets[0], ast.Name):
-                nm = st.targets[0].id
+            if isinstance(st, ast.Assign) and all(isinstance(t, ast.Name) for t in st.targets):
                 new = {}
                 for m, env in states.items():
                     self.visit_calls(st.value, env, m == "S")
-                    v = self.ev(st.value, env)
-                    if direct_opener and nm in self.captures and v and v <= frozenset({CUR, OPENER}):
-                        v = frozenset({OPENER})
+                    v0 = self.ev(st.value, env)
                     env2 = dict(env)
-                    env2[nm] = v
                     m2 = m
-                    if nm == self.span_var:
-                        m2 = "N" if (isinstance(st.value, ast.Constant) and st.value.value is None) else "S"
+                    for t in st.targets:        # a = b = value: every name gets the value
+                        nm = t.id
+                        v = v0
+                        if direct_opener and nm in self.captures and v and v <= frozenset({CUR, OPENER}):
+                            v = frozenset({OPENER})
+                        env2[nm] = v
+                        if nm == self.span_var:
+                            m2 = "N" if (isinstance(st.value, ast.Constant) and st.value.value is None) else "S"
                     new[m2] = self.join(new[m2], env2) if m2 in new else env2
                 states = new
             elif isinstance(st, ast.If):
@@ -201,6 +265,7 @@ def run(cx):
                 span_var = e.left.id
     cx.need(span_var is not None, "R04a", tok, "span-mode variable not recognised")
     pv = Prov(tok, line_loop, line_var, span_var)
+    pv.methods = {f_.name: f_ for f_ in cx.cls(REL, '_Tokenizer', 'R04a').body if isinstance(f_, FUNC)}
     pv.captures = pv.capture_vars()
     cx.note(f"opener-capture variables: {sorted(pv.captures)}")
     pv.run(tok.body, {"N": {}})
